@@ -169,7 +169,9 @@ Fixpoint nodup_b (l : list bytes) : bool :=
 
 Definition delivered_of (w : wire) (o : cbor) : option delivered :=
   match o with
-  | CArray [CUInt 1; CUInt 0] => Some DlNothing
+  (* "parsing error": only a frame WITHOUT data (or one that is no SessionData) is answered so; a frame that
+     carries data is either undecryptable (1,1), an authentic non-request (1,2) or a request (1,3) *)
+  | CArray [CUInt 1; CUInt 0] => match w with WData _ => None | _ => Some DlNothing end
   | CArray [CUInt 1; CUInt 1] => Some DlNothing
   | CArray [CUInt 1; CUInt 2] =>
     match w with
